@@ -139,7 +139,7 @@ def _cases(U):
     return cases
 
 
-def helper_obligations(R, worlds, scen, only=None, npoints=1, backend='pit-exact', present=('betaup3', 'betax')):
+def helper_obligations(R, worlds, scen, only=None, npoints=1, backend='pit-exact', present=('betaup3', 'betax'), tag=''):
     import aurel.core as C
     F, U, env = worlds.get(scen, 0)
     labels = [c[0] for c in _cases(U)]
@@ -149,7 +149,7 @@ def helper_obligations(R, worlds, scen, only=None, npoints=1, backend='pit-exact
         if only and meth not in only:
             continue
         R.under_contract(getattr(C.AurelCore, meth), f'aurel.core.AurelCore.{meth}')
-        obname = f'core.{label}[{scen}]'
+        obname = f'core.{label}[{scen}{tag}]'
         t0 = time.time()
         bad, frame, undec, raised, fresh_fail = set(), None, None, None, None
         for k in range(npoints):
